@@ -107,6 +107,22 @@ if not HAS_MATPLOTLIB:
 else:
     import matplotlib.path as mpath
 
+    class _DS9MarkerPath(mpath.Path):
+        """
+        The path of a DS9 point symbol without a standard matplotlib
+        marker.
+
+        The instances are read-only constants that copy to themselves,
+        so that the marker of a copied region is still equal to the
+        original one and is still recognized when serializing to DS9.
+        """
+
+        def __copy__(self):
+            return self
+
+        def __deepcopy__(self, memo=None):
+            return self
+
     vertices = [[0., -1.], [0.2652031, -1.],
                 [0.51957987, -0.89463369], [0.70710678, -0.70710678],
                 [0.89463369, -0.51957987], [1., -0.2652031],
@@ -123,10 +139,10 @@ else:
                 [-1., 1.], [-1., -1.], [0., -1.]]
     codes = [1, 4, 4, 4, 4, 4, 4, 4, 4, 4, 4, 4, 4, 4, 4, 4, 4, 4,
              4, 4, 4, 4, 4, 4, 4, 79, 1, 2, 2, 2, 2, 79]
-    boxcircle = mpath.Path(vertices, codes)
+    boxcircle = _DS9MarkerPath(vertices, codes, readonly=True)
 
     arrow_verts = [[-1, 0], [0, 0], [-1, 1], [0, 0], [0, 1]]
-    arrow = mpath.Path(arrow_verts, codes=None)
+    arrow = _DS9MarkerPath(arrow_verts, codes=None, readonly=True)
 
 
 # mapping from ds9 point symbols to matplotlib marker symbols
